@@ -585,6 +585,9 @@ func (env *Env) findGhost(t types.Type, name string) *GhostField {
 			return g
 		}
 	}
+	if g, ok := env.ex.ctx.specs.Ghosts["*."+name]; ok {
+		return g
+	}
 	var found *GhostField
 	n := 0
 	for _, g := range env.ex.ctx.specs.Ghosts {
@@ -1016,6 +1019,16 @@ func (env *Env) call(x *ECall) (EV, error) {
 		if p, ok := args[0].V.(SliceV); ok {
 			return EV{V: p.Arr}, nil
 		}
+	case "rawarr":
+		// the backing array (as an SMT array) of a slice of scalars, in the current state
+		if p, ok := args[0].V.(SliceV); ok && args[0].T != nil {
+			et := args[0].T.Underlying().(*types.Slice).Elem()
+			cs := leafComps(et)
+			if len(cs) == 1 {
+				return EV{V: Select(ex.heap(env.st, "[]"+typeKey(et), Arr2Sort(cs[0].Sort)), p.Arr)}, nil
+			}
+		}
+		return EV{}, fmt.Errorf("rawarr needs a slice of scalars")
 	case "has":
 		if m, ok := args[0].V.(Term); ok && args[0].T != nil {
 			mi := mapInfoOf(args[0].T)
